@@ -11,7 +11,8 @@ COQ_CHECK = "M_MaxSum.check_case"
 OBLIGATIONS = ["maxsum_factor_marginal_partial", "maxsum_select_value_partial", "maxsum_variable_message_partial",
                "maxsum_leaf_message_partial", "approx_match_stability0", "suppression_exact_repeat_ok",
                "amaxsum_leafs_silent", "amaxsum_tree_exact_refuted", "maxsum_tree_exact_default_stability_refuted",
-               "isolated_variable_initial_value_refuted"]
+               "isolated_variable_initial_value_refuted",
+               "maxsum_graph_ok", "maxsum_algo_ok", "maxsum_refines_rounds"]
 N_QUICK, N_THOROUGH = 250, 3000
 PARALLEL = 8
 SHARD = 20
